@@ -22,7 +22,7 @@ STREAMS = {
     "256x256-sb128": {"w": 256, "h": 256, "n": 2, "hierarchical_levels": 0, "enc_mode": 6, "super_block_size": 128, "enable_restoration_filtering": 0},
     "192x128-10bit": {"w": 192, "h": 128, "n": 3, "hierarchical_levels": 0, "enc_mode": 6, "encoder_bit_depth": 10, "enable_restoration_filtering": 0},
     "144x112-hl3-9frames": {"w": 144, "h": 112, "n": 9, "hierarchical_levels": 3, "enc_mode": 8},
-    "128x256-2tilerows": {"w": 128, "h": 256, "n": 3, "hierarchical_levels": 0, "enc_mode": 8, "tile_rows": 1},
+    "256x128-2tilerows": {"w": 256, "h": 128, "n": 3, "hierarchical_levels": 0, "enc_mode": 8, "tile_rows": 1},
     "192x128-restoration-on": {"w": 192, "h": 128, "n": 2, "hierarchical_levels": 0, "enc_mode": 4, "enable_restoration_filtering": 1},
 }
 
@@ -58,7 +58,7 @@ def run(tier):
     exe = schedlib.build_decdrv("rel")
     exe_asan = schedlib.build_decdrv("asan")
     wd = vlib.workdir("c09")
-    names = list(STREAMS) if tier == "thorough" else ["192x128-key+2inter", "256x128-2tiles", "128x256-2tilerows", "144x112-hl3-9frames", "192x128-restoration-on"]
+    names = list(STREAMS) if tier == "thorough" else ["192x128-key+2inter", "256x128-2tiles", "256x128-2tilerows", "144x112-hl3-9frames", "192x128-restoration-on"]
     streams_ = make_streams(wd, names)
     per, samples = [], []
     tot_exec = tot_trans = traces = 0
